@@ -286,10 +286,12 @@ class FuncEval:
     self.ix = ix
     self.max_depth = max_depth
 
-  def call(self, f: FuncInfo, env: dict, depth: int = 0):
+  def call(self, f: FuncInfo, env: dict, depth: int = 0, self_cls=None):
+    """self_cls: dynamic class of `self` (methods called on self are looked up from it, so that
+    overrides in subclasses are honoured)."""
     if depth > self.max_depth:
       raise NotConst("call depth")
-    ce = _CallingConstEval(self.ix, self, f, depth)
+    ce = _CallingConstEval(self.ix, self, f, depth, self_cls)
     try:
       return self._block(ce, f, f.node.body, dict(env))
     except _Return as r:
@@ -341,9 +343,10 @@ class _CallingConstEval(ConstEval):
   """ConstEval whose names may come from an env that also holds 'self.attr' entries, and which
   may call other pure repo functions through FuncEval."""
 
-  def __init__(self, ix, fe: FuncEval, f: FuncInfo, depth: int):
+  def __init__(self, ix, fe: FuncEval, f: FuncInfo, depth: int, self_cls=None):
     super().__init__(ix, symbolic_ok=True)
     self.fe, self.f, self.depth = fe, f, depth
+    self.self_cls = self_cls
 
   def _ev(self, m, e, cls, env):
     if isinstance(e, ast.Attribute) and isinstance(e.value, ast.Name):
@@ -357,8 +360,8 @@ class _CallingConstEval(ConstEval):
         head = dotted(fn).split(".")[0]
         if head not in env and head not in ("self", "cls"):
           target = self.ix.resolve(m, fn, cls=cls, func=self.f if isinstance(self.f, FuncInfo) else None)
-        elif head in ("self", "cls") and cls is not None and isinstance(fn, ast.Attribute) and isinstance(fn.value, ast.Name):
-          target = self.ix.lookup_method(cls, fn.attr)
+        elif head in ("self", "cls") and (cls is not None or self.self_cls is not None) and isinstance(fn, ast.Attribute) and isinstance(fn.value, ast.Name):
+          target = self.ix.lookup_method(self.self_cls or cls, fn.attr)
       if isinstance(target, FuncInfo) and not e.keywords:
         args = [self._ev(m, a, cls, env) for a in e.args]
         params = list(target.params)
@@ -378,5 +381,6 @@ class _CallingConstEval(ConstEval):
           for name, dv in zip(names[len(names) - len(d):], d):
             if name not in call_env and name not in ("self", "cls"):
               call_env[name] = ConstEval(self.ix).ev(target.module, dv, target.cls)
-        return self.fe.call(target, call_env, self.depth + 1)
+        bound = target.cls is not None and not target.is_static
+        return self.fe.call(target, call_env, self.depth + 1, self_cls=self.self_cls if bound else None)
     return super()._ev(m, e, cls, env)
